@@ -278,24 +278,36 @@ def State.promoteTx (s : State) (a : Nat) (t : Tx) : State × Bool :=
 def Account.setIfLower (ac : Account) (n : Nat) : Account :=
   if ac.pnGet ≤ n then { ac with pn := some ac.pnGet } else { ac with pn := some (max n ac.nonce) }
 
+/-- `removeTx`, pending branch: the list lost `t` (kept part `p'`), the transactions above it go back to the queue -/
+def State.removePending (s : State) (t : Tx) (invalids : List Tx) (p' : TxList) : State :=
+  let a := t.sender
+  let s := if p'.txs.isEmpty then s.upd a (fun ac => { ac with pending := {}, beat := 0 })
+           else s.upd a (fun ac => { ac with pending := p' })
+  let s := s.enqueueMany invalids
+  s.upd a (fun ac => ac.setIfLower t.nonce)
+
+/-- `removeTx`, queue branch -/
+def State.removeQueued (s : State) (t : Tx) : State :=
+  let a := t.sender
+  let ac := s.acct a
+  if ac.queue.txs.isEmpty then s else
+  let q' := (ac.queue.remove false t).2.2
+  if q'.txs.isEmpty then s.upd a (fun ac => { ac with queue := {} })
+  else s.upd a (fun ac => { ac with queue := q' })
+
+/-- the list part of `removeTx`: removal from pending is by NONCE (as `txList.Remove` does) -/
+def State.removeFromLists (s : State) (t : Tx) : State :=
+  let ac := s.acct t.sender
+  match (if ac.pending.txs.isEmpty then (false, [], ac.pending) else ac.pending.remove true t) with
+  | (true, invalids, p') => s.removePending t invalids p'
+  | (false, _, _) => s.removeQueued t
+
 /-- `removeTx(hash, outofbound)`; the hash is known only if the transaction is in `all`. -/
 def State.removeTx (s : State) (t : Tx) (oob : Bool) : State :=
   if !(t ∈ s.all) then s else
-  let a := t.sender
   let s := s.allRemove t
   let s := if oob then s.pricedRemoved 1 else s
-  let ac := s.acct a
-  match (if ac.pending.txs.isEmpty then (false, [], ac.pending) else ac.pending.remove true t) with
-  | (true, invalids, p') =>
-    let s := if p'.txs.isEmpty then s.upd a (fun ac => { ac with pending := {}, beat := 0 })
-             else s.upd a (fun ac => { ac with pending := p' })
-    let s := s.enqueueMany invalids
-    s.upd a (fun ac => ac.setIfLower t.nonce)
-  | (false, _, _) =>
-    if ac.queue.txs.isEmpty then s else
-    let (_, _, q') := ac.queue.remove false t
-    if q'.txs.isEmpty then s.upd a (fun ac => { ac with queue := {} })
-    else s.upd a (fun ac => { ac with queue := q' })
+  s.removeFromLists t
 
 def State.removeMany (s : State) (ts : List Tx) (oob : Bool) : State := ts.foldl (fun s t => s.removeTx t oob) s
 
@@ -361,22 +373,30 @@ def State.addTxsLocked (s : State) (txs : List Tx) (isLocal : Bool) : State × L
 
 def State.promoteMany (s : State) (a : Nat) (ts : List Tx) : State := ts.foldl (fun s t => (s.promoteTx a t).1) s
 
+/-- the read-only part of `promoteExecutables` for one account: (forwards, drops, readies, remaining queue) -/
+def queueScan (ac : Account) (maxGas : Nat) : List Tx × List Tx × List Tx × TxList :=
+  let fw := forwardN ac.queue.txs ac.nonce
+  let fl := ({ ac.queue with txs := fw.2 } : TxList).filter false ac.balance maxGas
+  let rd := readyN fl.2.2.txs ac.pnGet
+  (fw.1, fl.1, rd.1, { fl.2.2 with txs := rd.2 })
+
+/-- the per-account queue limit and the closing bookkeeping of `promoteExecutables` -/
+def State.capQueue (s : State) (a : Nat) (removed : Nat) : State :=
+  let ac := s.acct a
+  let cp := if ac.isLocal then ([], ac.queue) else ac.queue.cap s.cfg.accountQueue
+  let s := s.upd a (fun ac => { ac with queue := cp.2 })
+  let s := s.allRemoveMany cp.1
+  let s := s.pricedRemoved (removed + cp.1.length)
+  if (s.acct a).queue.txs.isEmpty then s.upd a (fun ac => { ac with queue := {} }) else s
+
 def State.promoteAccount (s : State) (a : Nat) : State :=
   let ac := s.acct a
   if ac.queue.txs.isEmpty then s else
-  let (forwards, kept) := forwardN ac.queue.txs ac.nonce
-  let s := s.allRemoveMany forwards
-  let (drops, _, q1) := ({ ac.queue with txs := kept } : TxList).filter false ac.balance s.maxGas
-  let s := s.allRemoveMany drops
-  let (readies, kept2) := readyN q1.txs ac.pnGet
-  let s := s.upd a (fun ac => { ac with queue := { q1 with txs := kept2 } })
-  let s := s.promoteMany a readies
-  let ac := s.acct a
-  let (caps, q3) := if ac.isLocal then ([], ac.queue) else ac.queue.cap s.cfg.accountQueue
-  let s := s.upd a (fun ac => { ac with queue := q3 })
-  let s := s.allRemoveMany caps
-  let s := s.pricedRemoved (forwards.length + drops.length + caps.length)
-  if (s.acct a).queue.txs.isEmpty then s.upd a (fun ac => { ac with queue := {} }) else s
+  let sc := queueScan ac s.maxGas
+  let s := (s.allRemoveMany sc.1).allRemoveMany sc.2.1
+  let s := s.upd a (fun ac => { ac with queue := sc.2.2.2 })
+  let s := s.promoteMany a sc.2.2.1
+  s.capQueue a (sc.1.length + sc.2.1.length)
 
 def State.promoteExecutables (s : State) (accounts : List Nat) : State := accounts.foldl State.promoteAccount s
 
@@ -385,21 +405,30 @@ def contigRun : Nat → List Tx → Nat → Nat
   | 0, _, _ => 0
   | fuel + 1, l, n => if (getN l n).isSome then 1 + contigRun fuel l (n + 1) else 0
 
+/-- the read-only part of `demoteUnexecutables` for one account: (olds, drops, invalids, remaining pending) -/
+def pendingScan (ac : Account) (maxGas : Nat) : List Tx × List Tx × List Tx × TxList :=
+  let fw := forwardN ac.pending.txs ac.nonce
+  let fl := ({ ac.pending with txs := fw.2 } : TxList).filter true ac.balance maxGas
+  (fw.1, fl.1, fl.2.1, fl.2.2)
+
+/-- the gap step of `demoteUnexecutables`: everything above the gap-free run goes back to the queue -/
+def State.demoteGap (s : State) (a : Nat) (nonce : Nat) : State :=
+  let p1 := (s.acct a).pending
+  let run := contigRun p1.txs.length p1.txs nonce
+  let cp := if run < p1.txs.length then p1.cap run else ([], p1)
+  let s := s.upd a (fun ac => { ac with pending := cp.2 })
+  let s := s.enqueueMany cp.1
+  if cp.2.txs.isEmpty then s.upd a (fun ac => { ac with pending := {}, beat := 0 }) else s
+
 def State.demoteAccount (s : State) (a : Nat) : State :=
   let ac := s.acct a
   if ac.pending.txs.isEmpty then s else
-  let (olds, kept) := forwardN ac.pending.txs ac.nonce
-  let s := s.allRemoveMany olds
-  let (drops, invalids, p1) := ({ ac.pending with txs := kept } : TxList).filter true ac.balance s.maxGas
-  let s := s.allRemoveMany drops
-  let s := s.pricedRemoved (olds.length + drops.length)
-  let s := s.upd a (fun ac => { ac with pending := p1 })
-  let s := s.enqueueMany invalids
-  let run := contigRun p1.txs.length p1.txs ac.nonce
-  let (gapped, p2) := if run < p1.txs.length then p1.cap run else ([], p1)
-  let s := s.upd a (fun ac => { ac with pending := p2 })
-  let s := s.enqueueMany gapped
-  if p2.txs.isEmpty then s.upd a (fun ac => { ac with pending := {}, beat := 0 }) else s
+  let sc := pendingScan ac s.maxGas
+  let s := (s.allRemoveMany sc.1).allRemoveMany sc.2.1
+  let s := s.pricedRemoved (sc.1.length + sc.2.1.length)
+  let s := s.upd a (fun ac => { ac with pending := sc.2.2.2 })
+  let s := s.enqueueMany sc.2.2.1
+  s.demoteGap a ac.nonce
 
 def State.demoteUnexecutables (s : State) (accounts : List Nat) : State := accounts.foldl State.demoteAccount s
 
